@@ -10,7 +10,7 @@ META = {
             "like a top-level function is not a call edge); Y1 every binary operator the parser accepts (infix_bp != None, except |>) has an operator kind in BinaryOp::op_details, "
             "and that kind reaches an arm of the inferencer that unifies the operands with each other and with the operand type Gleam "
             "prescribes, and yields Gleam's result type (Int/Float arithmetic, Int/Float comparison -> Bool, equality -> Bool, "
-            "boolean -> Bool, <> -> String). One obligation per operator token. Y5 every arm of infer_pattern that says something about the matched value constrains the pattern's own type variable.",
+            "boolean -> Bool, <> -> String). One obligation per operator token. Y5 every arm of infer_pattern that says something about the matched value constrains the pattern's own type variable. Y7 unify picks the idx of two unsolved variables from both values. Y6 dependency_order_query traverses the body of every function of the module (the groups are complete).",
     "explanation": "C09 as a whole quantifies over programs and feature interactions of a union-find unifier; no shape argument decides "
                    "it and this check does not pretend to. One clause is structural and necessary: an operator without a typing rule "
                    "leaves every expression using it (and everything bound to it) untyped. That clause is decided for all 22 operators.",
@@ -280,6 +280,8 @@ def run(F, res, tier):
                ok_operands and ok_opnd and ok_res, where=fn.loc(),
                how="kind %s; unify_var_ty calls %s; operands unified with each other: %s; arm yields %s" % (bk, tys, ok_operands, a["results"]))
     pattern_types_pinned(F, res)
+    groups_scan_every_body(F, res)
+    unknowns_unify_by_value(F, res)
 
 
 def resolver_swaps(F, res, rule="Y4"):
@@ -412,3 +414,127 @@ def pattern_types_pinned(F, res, rule="Y5"):
                how="constrained through %s" % sorted(set(pins)) if pins else "the arm types its parts only (%s); the returned variable stays free"
                % sorted({FL.short(callee(tt)) for _, tt in calls}))
     res.floor("pattern forms that constrain the matched value", n, 8)
+
+
+def groups_scan_every_body(F, res, rule="Y6"):
+    """Y6: the inference groups are the strongly connected components of the call graph dependency_order_query builds. The
+    inferencer relies on the graph being complete: a function it meets that is not in the group being inferred is asked for
+    its finished type, which is only well-founded when every reference between functions of the module is an edge. So each
+    iteration of the loop over the module's functions walks the whole body: no path round that loop avoids the traversal
+    that pushes the edges (a body skipped because it `cannot take part in a recursion` loses the edge of `fn next() { tick }`;
+    the two functions are inferred as separate groups that ask for each other: a query cycle)."""
+    f = F.fn("ide::def::scope::dependency_order_query")
+    d = FL.Defs(f)
+    pushers = set()
+    for c in F.with_closures(f.path):
+        if c != f.path and any(FL.short(callee(t) or callee_def(t) or "").endswith("Vec::push") for _b, t in F.fns[c].calls()):
+            pushers.add(c)
+    scans = []
+    for b, t in f.calls():
+        c = FL.short(callee(t) or callee_def(t) or "")
+        if c.rsplit("::", 1)[-1] in ("for_each", "fold", "try_for_each", "try_fold"):
+            for a in t["args"][1:]:
+                o = d.origin_op(a)
+                if o.get("k") == "agg" and o["rv"].get("closure") in pushers:
+                    scans.append(b)
+    # the traversal written as a loop: an inner loop (over Body::exprs) that contains a push
+    pushes = [b for b, t in f.calls() if FL.short(callee(t) or callee_def(t) or "").endswith("Vec::push")]
+    loops = {}
+    for tl, hd in f.back_edges():
+        loops.setdefault(hd, set()).update(f.natural_loop(tl, hd))
+    outer = [hd for hd, body in loops.items() if not any(hd in b2 and hd != h2 for h2, b2 in loops.items())]
+    for hd, body in loops.items():
+        if hd in outer:
+            continue
+        nx = f.term(hd)
+        dep = FL.depends(F, f, d, nx["args"][0]) if nx.get("k") == "call" and nx.get("args") else {"calls": []}
+        if any(x.endswith("Body::exprs") for x in dep["calls"]) and any(p in body for p in pushes):
+            scans.append(hd)
+    skipped = FL.every_iteration_passes(f, scans) if scans else [("none", "none")]
+    res.ob(rule, "dependency_order/every-body-scanned", "every iteration of the loop over the module's functions traverses the body and records its "
+           "references (the groups are complete: no function outside a group refers back into it)", bool(scans) and not skipped, where=f.loc(),
+           how="traversals that push edges: %d; ways round the loop without one: %d" % (len(scans), len(skipped)))
+
+
+def unknowns_unify_by_value(F, res, rule="Y7"):
+    """Y7: a type variable without a solution is Ty::Unknown{idx}; the idx is what names it when types are displayed and what
+    make_type uses to tell generic parameters apart. unify(Unknown a, Unknown b) must pick the surviving idx from the *values*
+    of both (the smaller one), not from the argument position: make_ty_from_typeref seeds a generic with its table index, which
+    collides with the idx of a later variable and is only brought back to the variable's own idx because the smaller one wins.
+    On the path of unify where both arguments are Unknown, the code reads the payload of both before the arms join."""
+    f = F.fn("ide::ty::infer::InferCtx::unify")
+    d = FL.Defs(f)
+    tup = None
+    for b, i, s in f.stmts():
+        rv = s.get("rv") or {}
+        if rv.get("k") == "agg" and rv.get("agg") == "tuple" and len(rv.get("ops", [])) == 2:
+            o = [d.origin_op(x) for x in rv["ops"]]
+            if [x.get("n") for x in o if x.get("k") == "arg"] == [2, 3]:
+                tup = s["place"]["l"]
+    if tup is None:
+        res.anchor_missing(rule, "the (lhs, rhs) tuple matched in InferCtx::unify")
+        return
+    names = FL.enum_names(F, "ide::ty::infer::Ty") or {}
+    unk = [k for k, v in names.items() if v == "Unknown"]
+    if not unk:
+        res.anchor_missing(rule, "variant Unknown of ide::ty::infer::Ty")
+        return
+    unk = unk[0]
+    # follow the switches on the discriminants of tup.0 / tup.1 along `Unknown`
+    seen_sides, b, visited = set(), 0, []
+    for _ in range(200):
+        visited.append(b)
+        t = f.term(b)
+        if t["k"] == "switch":
+            o = d.origin_op(t["op"])
+            side = None
+            if o.get("k") == "rv" and o["rv"].get("k") == "discr":
+                pl = o["rv"]["place"]
+                if pl["l"] == tup and pl["p"] and isinstance(pl["p"][0], dict) and pl["p"][0].get("f") in (0, 1) and len(pl["p"]) == 1:
+                    side = pl["p"][0]["f"]
+            if side is None:
+                break
+            seen_sides.add(side)
+            hit = [tb for v, tb in t["targets"] if v == unk]
+            b = hit[0] if hit else t["otherwise"]
+            continue
+        if seen_sides == {0, 1}:
+            break
+        succ = f.succ(b)
+        if len(succ) != 1:
+            break
+        b = succ[0]
+    reads = set()
+    arm = b
+    # the arm: from here until a block that other arms reach too
+    st, arm_blocks = [arm], set()
+    while st:
+        x = st.pop()
+        if x in arm_blocks or (x != arm and any(p not in arm_blocks for p in f.pred(x))):
+            continue
+        arm_blocks.add(x)
+        st.extend(f.succ(x))
+
+    def scan(o):
+        pl = (o.get("mv") or o.get("cp")) if isinstance(o, dict) else None
+        if pl and pl["l"] == tup and pl["p"] and isinstance(pl["p"][0], dict) and pl["p"][0].get("f") in (0, 1):
+            # reading the payload (a field below the variant), not just moving the whole side
+            if len(pl["p"]) > 1:
+                reads.add(pl["p"][0]["f"])
+    for x in arm_blocks:
+        for s in f.blocks[x]["stmts"]:
+            rv = s.get("rv") or {}
+            for key in ("op", "a", "b"):
+                if isinstance(rv.get(key), dict):
+                    scan(rv[key])
+            if "place" in rv:
+                scan({"cp": rv["place"]})
+            for o in rv.get("ops", []) or []:
+                scan(o)
+        t = f.term(x)
+        for a in t.get("args", []) or []:
+            scan(a)
+    ok = seen_sides == {0, 1} and reads == {0, 1}
+    res.ob(rule, "unify/unknowns-by-value", "unify of two unsolved variables chooses the surviving idx from the idx of both (the smaller wins), not by "
+           "argument position", ok, where=f.loc(), how="both discriminants tested: %s; payloads read in the arm for (Unknown, Unknown): %s" %
+           (sorted(seen_sides), sorted(reads)))
